@@ -98,6 +98,19 @@ def parse (text : Str) : Desc :=
       if startsWith setting "ddb.".toList then { d with ddb := dictSet d.ddb setting value }
       else { d with attr := dictSet d.attr setting value }) ⟨[], [], [], 0⟩
 
+/-- the parent decision of `VMDK.__init__` on a parsed descriptor (both the text-descriptor path and the embedded
+    descriptor of a monolithic sparse extent): `attr["parentCID"]` (KeyError when absent) compared with `ffffffff`;
+    for any other value `attr["parentFileNameHint"]` (KeyError when absent) is handed to `open_parent`.
+    `.ok none` = base disk, `.ok (some hint)` = the parent named by `hint` must be opened, `.error` = refused. -/
+def parentLink (d : Desc) : Except Unit (Option Str) :=
+  match dictGet d.attr "parentCID".toList with
+  | none => .error ()
+  | some cid =>
+    if cid = "ffffffff".toList then .ok none
+    else match dictGet d.attr "parentFileNameHint".toList with
+      | none => .error ()
+      | some h => .ok (some h)
+
 inductive Wire where | sparse | flat | dropped
   deriving Repr, DecidableEq
 
